@@ -114,7 +114,53 @@ func (g *gen) closureLoopStmt() []Stmt {
 	}
 	mk := &Assign{Targets: []Expr{Idx(N(fs), B("+", U("#", N(fs)), I(1)))}, Exprs: []Expr{&Func{Body: closureBody}}}
 	jinit := &Local{Names: []string{j}, Exprs: []Expr{B("*", N(i), g.intLeaf(c))}}
-	switch g.n(3, "cl-loop") {
+	switch g.n(7, "cl-loop") {
+	case 3:
+		// repeat loop: i is shared, the body's j is fresh per iteration and is
+		// still in scope in the until-condition
+		loop = &Do{Body: []Stmt{
+			&Local{Names: []string{i}, Exprs: []Expr{I(1)}},
+			&Repeat{Body: []Stmt{jinit, mk, &Assign{Targets: []Expr{N(i)}, Exprs: []Expr{B("+", N(i), I(1))}}},
+				Cond: B("or", B(">", N(i), I(n)), B("~=", N(j), N(j)))},
+		}}
+	case 4:
+		// loop made of a backward goto: every execution of the local statement
+		// defines a new j
+		top := g.fresh("top")
+		loop = &Do{Body: []Stmt{
+			&Local{Names: []string{i}, Exprs: []Expr{I(1)}},
+			&Label{Name: top},
+			jinit, mk,
+			&Assign{Targets: []Expr{N(i)}, Exprs: []Expr{B("+", N(i), I(1))}},
+			&If{Conds: []Expr{B("<=", N(i), I(n))}, Blocks: [][]Stmt{{&Goto{Label: top}}}},
+		}}
+	case 5:
+		// nested loops: j is shared by the closures of one outer iteration, q is
+		// fresh per inner iteration; the inner loop is a repeat or a while loop
+		m, q := g.fresh("m"), g.fresh("q")
+		body := []Stmt{&Return{Exprs: []Expr{B("+", B("+", B("*", N(i), I(100)), N(j)), N(q))}}}
+		if inc {
+			body = append([]Stmt{&Assign{Targets: []Expr{N(j), N(q)}, Exprs: []Expr{B("+", N(j), I(1)), B("+", N(q), I(1000))}}}, body...)
+		}
+		mk2 := &Assign{Targets: []Expr{Idx(N(fs), B("+", U("#", N(fs)), I(1)))}, Exprs: []Expr{&Func{Body: body}}}
+		step := &Assign{Targets: []Expr{N(m)}, Exprs: []Expr{B("+", N(m), I(1))}}
+		qinit := &Local{Names: []string{q}, Exprs: []Expr{B("*", N(m), I(10))}}
+		var inner Stmt
+		if g.chance(50, "cl-inner-repeat") {
+			inner = &Repeat{Body: []Stmt{qinit, mk2, step}, Cond: B(">", B("+", N(m), B("-", N(q), N(q))), I(2))}
+		} else {
+			inner = &While{Cond: B("<=", N(m), I(2)), Body: []Stmt{qinit, mk2, step}}
+		}
+		loop = &NumFor{Var: i, Start: I(1), Limit: I(n), Body: []Stmt{jinit, &Local{Names: []string{m}, Exprs: []Expr{I(1)}}, inner}}
+	case 6:
+		// the captured local lives in a block nested in the loop body, and the
+		// loop continues with a goto
+		cont := g.fresh("cont")
+		loop = &NumFor{Var: i, Start: I(1), Limit: I(n + 1), Body: []Stmt{
+			&If{Conds: []Expr{B("==", N(i), I(2))}, Blocks: [][]Stmt{{&Goto{Label: cont}}}},
+			&Do{Body: []Stmt{jinit, &If{Conds: []Expr{B(">", N(i), I(0))}, Blocks: [][]Stmt{{mk}}}}},
+			&Label{Name: cont},
+		}}
 	case 0:
 		loop = &NumFor{Var: i, Start: I(1), Limit: I(n), Body: []Stmt{jinit, mk}}
 	case 1:
